@@ -133,7 +133,7 @@ impl Prop for P {
         }
     }
     fn cases(tier: Tier) -> u64 {
-        tier.pick(1500, 12_000)
+        tier.pick(4_000, 40_000)
     }
     fn fixed_cases(tier: Tier) -> Vec<Case> {
         let mut v: Vec<Case> = (0..=300u32).map(|n| Case::Len { n }).collect();
